@@ -192,6 +192,8 @@ fn deep_call_families(tier: Tier, rep: &mut Report) {
             continue;
         }
         texts.push((format!("parens-in-2nd-arg-{n}"), format!("mx(y, {} + 1) * 2", par(n, "x"))));
+        // (the call operator binds tighter than the operator that follows the group)
+        texts.push((format!("parens-in-2nd-arg-of-tight-call-{n}"), format!("pw(y, {} + 1) - 2", par(n, "x"))));
         texts.push((format!("parens-in-1st-arg-{n}"), format!("pw({} - 1, y) / 2", par(n, "x"))));
         texts.push((format!("parens-around-inner-call-in-2nd-arg-{n}"), format!("av(y, {})", par(n, "mn(x,2)"))));
         texts.push((format!("parens-around-inner-call-in-1st-arg-{n}"), format!("av({}, y) - x", par(n, "mx(x,2)"))));
@@ -216,6 +218,14 @@ fn deep_call_families(tier: Tier, rep: &mut Report) {
             }
             s
         }));
+    }
+    // a call far below the top level: the parenthesis depth of the call itself passes 127 / 255 /
+    // 511 (/ 1023), its second argument holds a group followed by further tokens
+    let depths: Vec<usize> = if tier.thorough() { (120..=136).chain(248..=264).chain(505..=520).chain(1020..=1030).collect() } else { vec![126, 127, 128, 129, 253, 254, 255, 256, 257, 258, 511, 512, 513] };
+    for &n in &depths {
+        texts.push((format!("call-below-enclosing-parens-{n}"), format!("{} * 2", par(n, "pw(y, (x) + 1)"))));
+        texts.push((format!("nested-calls-below-enclosing-parens-{n}"), format!("1 - {}", par(n, "av(pw(3, (x) - y) + 1, f(y) * 2)"))));
+        texts.push((format!("call-below-unary-functions-{n}"), format!("{}pw((y) - 1, (x) / 2){}", "f(".repeat(n), ")".repeat(n))));
     }
     let pipes = [Pipe::P, Pipe::W, Pipe::D];
     let accs = par_ranges(
@@ -259,5 +269,5 @@ fn deep_call_families(tier: Tier, rep: &mut Report) {
     for a in accs {
         rep.absorb(a);
     }
-    rep.bounds.push(format!("deep call families: {} texts (calls nested up to {max_nest} levels in either argument; up to {max_parens} redundant parentheses inside arguments / around calls), pipes {pipes:?}: complete", texts.len()));
+    rep.bounds.push(format!("deep call families: {} texts (calls nested up to {max_nest} levels in either argument; up to {max_parens} redundant parentheses inside arguments / around calls; calls below {} .. {} enclosing parentheses / unary functions), pipes {pipes:?}: complete", texts.len(), depths[0], depths[depths.len() - 1]));
 }
